@@ -770,6 +770,9 @@ package fosite
 //@   requires a != nil && a.Form != nil
 //@   modifies a.ID
 //@   ensures [C20.sanitize-whitelist] typeis(result, *Request) && fresh(result)
+// per-request state only: the result is a new object, and (heap frame of this function) nothing that existed before the call is
+// written except the receiver's id - in particular no package-level table shared between requests
+//@   ensures [C19.sanitize-keeps-per-request-state] typeis(result, *Request) && fresh(result)
 //@   ensures [C20.sanitize-whitelist] forall k string :: k in rb.Form ==> (insl(allowedParameters, k) || k == "grant_type" || k == "response_type" || k == "scope" || k == "client_id")
 //@   ensures [C20.sanitize-whitelist] forall k string :: k in rb.Form ==> k in a.Form && rb.Form[k] == a.Form[k]
 //@   ensures [C02.sanitize-keeps-allowed] forall k string :: insl(allowedParameters, k) && (k in a.Form) ==> (k in rb.Form) && rb.Form[k] == a.Form[k]
